@@ -117,6 +117,8 @@ def _compile_patching(tree, reverse_prefix, vendor):
 
 @functools.lru_cache()
 def _make_reverse(row, reverse_prefix, flags=0):
+    # the (?i) marker is a matching flag (already in flags), not a part of the command
+    row = row.replace("(?i)", "").strip()
     if row.startswith(reverse_prefix + " "):
         row = row[len(reverse_prefix + " "):]
     else:
